@@ -75,7 +75,29 @@ fn plain_safe_word(s: &str) -> bool {
     first.is_ascii_lowercase() && s.chars().all(|c| c.is_ascii_lowercase() || c.is_ascii_digit() || c == '_') && s.parse::<f64>().is_err()
 }
 
+/// characters YAML 1.1 treats as line breaks or as non-printable: only a double-quoted scalar with escapes can carry them
+fn yaml_special(c: char) -> bool {
+    let u = c as u32;
+    u < 0x20 || (0x7f..=0x9f).contains(&u) || u == 0x2028 || u == 0x2029 || u == 0xfeff
+}
+fn yaml_dq(s: &str) -> String {
+    let mut o = String::new();
+    let mut j = String::new();
+    json_str(s, &mut j);
+    for c in j.chars() {
+        if yaml_special(c) {
+            o.push_str(&format!("\\u{:04x}", c as u32));
+        } else {
+            o.push(c);
+        }
+    }
+    o
+}
+
 pub fn yaml_str(s: &str, q: Quote) -> String {
+    if s.chars().any(yaml_special) {
+        return yaml_dq(s);
+    }
     match q {
         Quote::PlainSafe if plain_safe_word(s) => s.to_string(),
         Quote::Literal | Quote::Folded => {
@@ -176,7 +198,7 @@ fn block(w: &mut W, v: &V, l: &Layout, path: &str, depth: usize, inline_first: b
                         w.push("\n");
                         block(w, x, l, &ptr(path, k), depth + 1, false);
                     }
-                    V::Str(sv) if matches!(l.quote, Quote::Literal | Quote::Folded) && !sv.is_empty() && !sv.starts_with(' ') && !sv.ends_with(' ') && !sv.contains('\n') && !sv.chars().any(|c| (c as u32) < 0x20) => {
+                    V::Str(sv) if matches!(l.quote, Quote::Literal | Quote::Folded) && !sv.is_empty() && !sv.starts_with(' ') && !sv.ends_with(' ') && !sv.contains('\n') && !sv.chars().any(yaml_special) => {
                         w.push(if l.quote == Quote::Literal { " |-\n" } else { " >-\n" });
                         w.push(&" ".repeat((depth + 1) * l.indent));
                         w.mark(&ptr(path, k));
@@ -273,6 +295,13 @@ fn json_pretty(w: &mut W, v: &V, l: &Layout, path: &str, depth: usize) {
         }
         V::List(_) => w.push("[]"),
         V::Map(_) => w.push("{}"),
+        V::Str(sv) => {
+            // JSON proper: only the characters JSON requires are escaped
+            w.mark(path);
+            let mut o = String::new();
+            json_str(sv, &mut o);
+            w.push(&o);
+        }
         s => {
             w.mark(path);
             w.push(&scalar_txt(s, Quote::Double));
@@ -305,6 +334,13 @@ fn json_compact(w: &mut W, v: &V, path: &str) {
                 json_compact(w, x, &ptr(path, k));
             }
             w.push("}");
+        }
+        V::Str(sv) => {
+            // JSON proper: only the characters JSON requires are escaped
+            w.mark(path);
+            let mut o = String::new();
+            json_str(sv, &mut o);
+            w.push(&o);
         }
         s => {
             w.mark(path);
